@@ -164,7 +164,7 @@ def _mps(case):
     letters = "grx"[:dim]
     amps = {}
     for idx, a in enumerate(v):
-        if abs(a) > 0:
+        if not abs(a) <= 0:  # NaN fails
             amps["".join(letters[int(c)] for c in np.base_repr(idx, dim).zfill(n))] = complex(a)
     label = f"mps N={n} dim={dim} state={case['state']} canonical={case['canonical']}"
 
